@@ -128,7 +128,7 @@ static void oracle_C15(const Case &c, vf::Stats &st) {
   std::string cj = c.json(), key = c.key();
   // errors: same kinds at the same locations, in order
   std::vector<std::string> ge, we;
-  for (auto &e : got.errors) ge.push_back(std::to_string((int)e.t) + "@" + e.file + ":" + std::to_string(e.line) + (e.file_request.empty() ? "" : " req=" + e.file_request));
+  for (auto &e : got.errors) ge.push_back(std::to_string((int)e.t) + "@" + e.file + ":" + std::to_string(e.line) + (e.file_request.empty() || ((int)e.t != ref::E_MAIN_NOT_FOUND && (int)e.t != ref::E_FILE_NOT_FOUND) ? "" : " req=" + e.file_request));  // what other kinds of error carry in that field is not specified
   for (auto &e : want.errs) we.push_back(std::to_string(e.kind) + "@" + e.file + ":" + std::to_string(e.line) + (e.request.empty() ? "" : " req=" + e.request));
   std::sort(ge.begin(), ge.end()); std::sort(we.begin(), we.end());  // the order in which errors are listed is not part of the property
   if (ge != we) { st.violation(key, "scanner reports " + vf::jarr_str(ge) + ", reference " + vf::jarr_str(we) + " (0 main missing, 1 expected filename, 2 not found, 3 recursive)", cj); return; }
